@@ -595,14 +595,17 @@ def dc_objects(case):
     return make_class, make_instance
 
 
-def run_impl(case):
+def _clear_registries():
+    """every case starts from empty transformer class registries, so that it does not depend on the cases
+    that ran before it in this process (inputs_to_dict names its classes by a hash of the specification)"""
+    from pyiron_workflow.nodes import transform as T
+    for fac in (T.inputs_to_dict_factory, T.inputs_to_list_factory, T.list_to_outputs_factory,
+                T.inputs_to_dataframe_factory):
+        fac.clear()
+
+
+def _run_one(case):
     k = case["kind"]
-    if k == "multi":            # several nodes made one after the other in one process
-        from pyiron_workflow.nodes import transform as T
-        for fac in (T.inputs_to_dict_factory, T.inputs_to_list_factory, T.list_to_outputs_factory,
-                    T.inputs_to_dataframe_factory):
-            fac.clear()         # start from empty class registries: the case is self-contained (replayable)
-        return [run_impl(c) for c in case["cases"]]
     if k == "fn":
         mk, inst = fn_objects(case)
     elif k == "dc":
@@ -610,6 +613,13 @@ def run_impl(case):
     else:
         mk, inst = tf_objects(case)
     return drive(mk, inst, case["ops"])
+
+
+def run_impl(case):
+    _clear_registries()
+    if case["kind"] == "multi":     # several nodes made one after the other in one process
+        return [_run_one(c) for c in case["cases"]]
+    return _run_one(case)
 
 
 # =============================================================================================
